@@ -779,6 +779,8 @@ def function(it, dotted, args, kwargs, fr, node):
             return VIndexSeq([(args[0].p, 1, 0)])
         if last == "sqrt" and len(args) == 1 and isinstance(args[0], (VInt, VFloat, VScalar)):
             return _sqrt_scalar(args[0])
+        if last == "norm" and len(args) == 1 and isinstance(args[0], VTensor) and not kwargs:
+            return VScalar(Coef.sym("norm(" + args[0].dense().canon() + ")"))
         if last == "prod":
             try:
                 items = it.iter_concrete(args[0])
@@ -795,6 +797,15 @@ def function(it, dotted, args, kwargs, fr, node):
         return torch_function(it, dotted, last, args, kwargs, node)
     if top == "sys":
         return VOpaque(dotted)
+    if dotted == "math.prod" and len(args) == 1 and not kwargs:
+        out = ONE
+        for x in it.iter_concrete(args[0]):
+            if not isinstance(x, VInt):
+                raise Unmodelled("math.prod of values that are not integers")
+            out = out * x.p
+        return VInt(out)
+    if dotted == "math.sqrt" and len(args) == 1:
+        return _sqrt_scalar(args[0])
     raise Unmodelled(f"call of {dotted}")
 
 
@@ -854,7 +865,19 @@ def builtin(it, name, args, kwargs, fr, node):
     if name == "zip":
         return VZip(list(args))
     if name == "enumerate":
-        return VEnumerate(args[0])
+        st = args[1] if len(args) > 1 else kwargs.get("start")
+        if st is not None and not isinstance(st, VInt):
+            raise Unmodelled("enumerate with a start that is not an integer")
+        e = VEnumerate(args[0])
+        e.start = st.p if st is not None else ZERO
+        return e
+    if name == "_ttsa_is_sequence":
+        v = args[0]
+        if isinstance(v, (VList, VTuple, VSeq, VSymList, VRange)):
+            return VBool(True)
+        if isinstance(v, (VInt, VFloat, VStr, VNone, VBool, VTensor, VTT, VScalar)):
+            return VBool(False)
+        raise Unmodelled(f"sequence pattern against {type(v).__name__}")
     if name == "isinstance":
         return isinstance_check(it, args[0], args[1])
     if name in ("list", "tuple"):
@@ -897,7 +920,15 @@ def builtin(it, name, args, kwargs, fr, node):
         return VInt(out)
     if name in ("min", "max"):
         vals = args if len(args) > 1 else it.iter_concrete(args[0])
+        # sys.maxsize: larger than every size
+        big = [x for x in vals if (isinstance(x, VFunc) and x.dotted == "sys.maxsize") or (isinstance(x, VOpaque) and x.tag == "sys.maxsize")]
+        if big and len(big) < len(vals):
+            if name == "max":
+                return big[0]
+            vals = [x for x in vals if x not in big]
         best = vals[0]
+        if not all(isinstance(x, VInt) for x in vals):
+            raise Unmodelled(f"{name} of values that are not integers ({', '.join(type(x).__name__ for x in vals)})")
         for x in vals[1:]:
             c = it.facts.compare(x.p, "<" if name == "min" else ">", best.p)
             if c is None:
